@@ -111,7 +111,12 @@ fn render(us: &[Unit]) -> (String, String) {
             }
             "dq" => {
                 word.push('"');
-                word.push_str(&u.s);
+                for c in u.s.chars() {
+                    if matches!(c, '\\' | '"' | '$' | '`') {
+                        word.push('\\');
+                    }
+                    word.push(c);
+                }
                 word.push('"');
             }
             "var" | "dqvar" => {
@@ -281,6 +286,17 @@ fn run_batch_once(tree: &Tree, words: &[(usize, &[Unit])], noglob: bool, mode: M
 // ---------------------------------------------------------------------------
 // replay (spec -> impl)
 // ---------------------------------------------------------------------------
+/// Glob!WeakOK for a word with a component of unspecified meaning: the word
+/// itself, or a non-empty strictly sorted (byte order) list of pathnames out of
+/// `universe` (the existing pathnames that match when the open component is
+/// read as "any entry").
+fn weak_ok(got: &[String], field: &str, universe: &[String]) -> bool {
+    if got.len() == 1 && got[0] == field {
+        return true;
+    }
+    !got.is_empty() && got.windows(2).all(|w| w[0].as_bytes() < w[1].as_bytes()) && got.iter().all(|g| universe.contains(g))
+}
+
 struct Case {
     f: Vec<usize>,
     un: bool,
@@ -337,14 +353,15 @@ fn replay(args: &[String]) {
     let mut n_sim_only = 0usize;
     let mut real_trees = 0usize;
     let mut n_not_run = 0usize;
+    let mut n_weak = 0usize;
     let mut samples: Vec<Value> = vec![];
     let n_un = cases.iter().filter(|c| c.un).count();
 
     for (ti, tree) in trees.iter().enumerate() {
         // the words judged in this tree
         let sel: Vec<(usize, &[Unit])> =
-            cases.iter().enumerate().filter(|(_, c)| !c.un && c.r[ti].is_some()).map(|(i, _)| (i, words[i].as_slice())).collect();
-        n_outside += cases.iter().filter(|c| !c.un && c.r[ti].is_none()).count();
+            cases.iter().enumerate().filter(|(_, c)| c.r[ti].is_some()).map(|(i, _)| (i, words[i].as_slice())).collect();
+        n_outside += cases.iter().filter(|c| c.r[ti].is_none()).count();
         let on_real = tree.has_links() || ti < real_first || (real_stride > 0 && ti % real_stride == 0);
         let sim = run_batch(tree, &sel, false, Mode::Sim);
         n_not_run += sim.aborted;
@@ -353,6 +370,7 @@ fn replay(args: &[String]) {
         let conforms = |r: &RunOut, i: &usize| {
             let allowed = cases[*i].r[ti].as_ref().unwrap();
             match r.got.get(i) {
+                Some(g) if cases[*i].un => weak_ok(g, &cases[*i].ng, &allowed[0]),
                 Some(g) => allowed.iter().any(|a| a == g),
                 None => !r.failed.contains_key(i),
             }
@@ -376,7 +394,10 @@ fn replay(args: &[String]) {
         };
         for (i, us) in &sel {
             let allowed = cases[*i].r[ti].as_ref().unwrap();
-            let trivial = allowed.len() == 1 && allowed[0].len() == 1 && allowed[0][0] == cases[*i].ng;
+            let trivial = cases[*i].un || allowed.len() == 1 && allowed[0].len() == 1 && allowed[0][0] == cases[*i].ng;
+            if cases[*i].un {
+                n_weak += 1;
+            }
             if !trivial {
                 n_nontrivial += 1;
             }
@@ -394,7 +415,7 @@ fn replay(args: &[String]) {
                 let (pre, word) = render(us);
                 let rec = json!({
                     "mode": mode.name(), "tree": tree.to_json(), "links": tree.has_links(), "real": real_state,
-                    "units": units_to_json(us), "text": format!("{pre}probe {word}"), "field": cases[*i].ng, "noglob": false,
+                    "units": units_to_json(us), "text": format!("{pre}probe {word}"), "field": cases[*i].ng, "noglob": false, "weak": cases[*i].un,
                     "allowed": allowed, "observed": r.got.get(i), "missing": !r.got.contains_key(i), "outcome": r.outcome_of(i),
                 });
                 writeln!(out, "{rec}").unwrap();
@@ -430,7 +451,7 @@ fn replay(args: &[String]) {
         }
         // noglob: the word itself, whatever the tree
         if ti < noglob_trees {
-            let all: Vec<(usize, &[Unit])> = cases.iter().enumerate().filter(|(_, c)| !c.un).map(|(i, _)| (i, words[i].as_slice())).collect();
+            let all: Vec<(usize, &[Unit])> = cases.iter().enumerate().map(|(i, _)| (i, words[i].as_slice())).collect();
             let mut runs = vec![(Mode::Sim, run_batch(tree, &all, true, Mode::Sim))];
             if on_real {
                 runs.push((Mode::Real, run_batch(tree, &all, true, Mode::Real)));
@@ -461,7 +482,7 @@ fn replay(args: &[String]) {
         "trees": trees.len(), "words": cases.len(), "unspecified_words": n_un, "outside_cases": n_outside,
         "sim_cases": n_sim, "real_cases": n_real, "real_trees": real_trees, "noglob_cases": n_noglob,
         "nontrivial_cases": n_nontrivial, "cases_with_choice": n_choice,
-        "mismatches": n_mismatch, "sim_only_mismatches": n_sim_only, "not_run_after_failures": n_not_run, "samples": samples,
+        "mismatches": n_mismatch, "sim_only_mismatches": n_sim_only, "not_run_after_failures": n_not_run, "weakly_judged_cases": n_weak, "samples": samples,
     });
     println!("{summary}");
 }
@@ -471,7 +492,7 @@ fn replay(args: &[String]) {
 // ---------------------------------------------------------------------------
 const NAMES: &[&str] = &[
     "a", "b", "ab", "ba", "abc", ".a", ".b", ".ab", "-", "[", "]", "*", "?", "a]", "[a]", "!", "^", "a-b", "sub", "x.y", "..a", "a.",
-    "b*", "-a",
+    "b*", "-a", "a\\", "\\a", "a\\b", "\\",
 ];
 
 fn pick<'a, T>(rng: &mut StdRng, xs: &'a [T]) -> &'a T {
@@ -568,7 +589,10 @@ fn random_component(rng: &mut StdRng, name: &str) -> Vec<Unit> {
         "**", "[[:alpha:]]*", "[![:punct:]]", "..", ".", "", "[a-]", "[--a]", "*[!a]", "?*[]b]", "[!-]*", "[[:punct:]]", ".[!.]*", ".?", "[.]?",
     ];
     const VALUES: &[&str] = &["*", "?", "[ab]", "a*", "\\*", "\\?", "[!a]*", ".*", "\\[a]", "a\\b", "\\.a", "[a\\]b]", "*\\", "a", "?\\*", "*\\a"];
-    match rng.gen_range(0..20) {
+    let roll = rng.gen_range(0..20);
+    // a backslash can only be written quoted
+    let roll = if name.contains('\\') && roll <= 3 { 4 } else { roll };
+    match roll {
         0..=3 => vec![lit(name)],
         4..=6 => quoted(rng, name),
         7..=13 => {
@@ -578,7 +602,10 @@ fn random_component(rng: &mut StdRng, name: &str) -> Vec<Unit> {
             let mut i = 0;
             while i < chars.len() {
                 let c = chars[i];
-                match rng.gen_range(0..10) {
+                let r = rng.gen_range(0..10);
+                let r = if c == '\\' && r != 3 { if r < 3 { 10 } else { 4 } } else { r };
+                match r {
+                    10 => us.push(lit("?")),
                     0..=2 => us.push(lit(&pattern_for(rng, c))),
                     3 => {
                         us.push(lit("*"));
@@ -747,7 +774,12 @@ fn redo(args: &[String]) {
             .iter()
             .map(|a| a.as_array().unwrap().iter().map(|s| s.as_str().unwrap().to_string()).collect())
             .collect();
-        let ok = r.got.get(&0).map(|g| allowed.iter().any(|a| a == g)).unwrap_or(false);
+        let weak = v["weak"].as_bool().unwrap_or(false);
+        let ok = r
+            .got
+            .get(&0)
+            .map(|g| if weak { weak_ok(g, v["field"].as_str().unwrap_or(""), &allowed[0]) } else { allowed.iter().any(|a| a == g) })
+            .unwrap_or(false);
         if !ok {
             bad += 1;
         }
